@@ -91,7 +91,10 @@ static void body(void) {
   int constcol = cc == 0 ? -1 : cc == 1 ? 0 : cc == 2 ? p - 1 : p / 2;
   for (int j = 0; j < p; j++) {
     double o = OFFV[off] * ((j & 1) ? -0.5 : 1.0);
-    for (int i = 0; i < n; i++) X_[i * p + j] = (j == constcol) ? OFFV[off] : X_[i * p + j] + o;
+    /* value of the constant column: the offset in force; without an offset 4.25 (first), 0 (last), -2.5 (middle) -- a column that is
+     * constant but NOT zero must come back from the back-transform as that constant */
+    double cval = OFFV[off] != 0 ? OFFV[off] : cc == 1 ? 4.25 : cc == 3 ? -2.5 : 0.0;
+    for (int i = 0; i < n; i++) X_[i * p + j] = (j == constcol) ? cval : X_[i * p + j] + o;
   }
   matrix *mx = hm_new(n, p, X_);
   rmat *RX = rm_from(mx);
